@@ -53,6 +53,18 @@ func c01Check(r *core.Run, worker int, p adapt.Parser, in *Input) bool {
 			r.Violate(id+"|reserialise-differs", fmt.Sprintf("%s re-serialises %d input bytes to %d bytes, first difference at %d (%s; %s)", p.Name, len(in.Bytes), len(ser), firstDiff(ser, in.Bytes), in.Detail, in.Base), in.Case(p.Name))
 		}
 	}
+	// history: any exported call on the parsed value (every method x the argument menu; the three
+	// documented mutators excluded) between parsing and serialising leaves the serialisation alone.
+	// Done for base encodings (the mutated ones differ from a base in one field only).
+	if in.Class == "base" && res.Val != nil {
+		core.Guard(func() { adapt.CallMethods(res.Val, true, mutatorNames, func(adapt.CallOutcome) {}) })
+		var ser2 []byte
+		var err2 error
+		if pan, _ := core.Guard(func() { ser2, err2 = res.Ser() }); pan || err2 != nil || !bytes.Equal(ser2, ser) {
+			r.Violate(fmt.Sprintf("C01|%s|%s|reserialise-differs-after-read-only-calls", p.Name, in.Family), fmt.Sprintf("%s: after calling the value's exported methods (mutators excluded) its serialisation changed: panic=%v err=%v, first difference at %d (%s; %s)", p.Name, pan, err2, firstDiff(ser2, ser), in.Detail, in.Base), in.Case(p.Name))
+		}
+		r.Evaluations.Add(1)
+	}
 	if in.Class == "base" || len(in.Bytes) < 600 {
 		r.Distinct([]byte(p.Name), in.Bytes)
 	} else {
